@@ -281,8 +281,15 @@ def r4_last_match(rep, src):
     mod = src.mod(M)
     n = 0
     bad = None
+    from .. import symstr
+    NAME = symstr.atom('file name', r'(?s:.*)')
+    asked = []
+
+    def matches_hook(it, args, kw):
+        asked.append(args[1] if len(args) > 1 else None)
+        return it.h.objs[args[0].name]['hit']
     for truth in itertools.product((False, True), repeat=3):
-        heap = H.Heap(mod, hooks={'.matches': lambda it, args, kw: it.h.objs[args[0].name]['hit']})
+        heap = H.Heap(mod, hooks={'.matches': matches_hook})
         heap.symbolic_strings = True
         hdr = heap.alloc('Header', {}, name='@header')
         fps = [heap.alloc('FilesParagraph', {'hit': t}, name='@files%d' % (i + 1)) for i, t in enumerate(truth)]
@@ -291,7 +298,7 @@ def r4_last_match(rep, src):
         me = heap.alloc('Copyright', {'_Copyright__paragraphs': paras, '_Copyright__header': hdr}, name='@copyright')
         it = H.Interp(heap)
         try:
-            r = it.call(H.Closure(f.node, {}, me, f.cls), ['some/file'])
+            r = it.call(H.Closure(f.node, {}, me, f.cls), [NAME])
         except H.Raised as x:
             r = 'raises ' + x.exc
         want = None
@@ -301,6 +308,14 @@ def r4_last_match(rep, src):
         n += 1
         if r != want and bad is None:
             bad = 'with Files paragraphs matching = %s the answer is %r; the last matching paragraph in document order is %r' % (list(truth), r, want)
+    altered = [x for x in asked if not (isinstance(x, symstr.SStr) and x.same(NAME))]
+    if not asked:
+        raise AnalysisError('%s: matches() is never asked' % f.site)
+    if altered:
+        rep.fail('C16.R4', f.site, 'the paragraphs are asked about the given name', 'matches() is asked about %r, not about the file name that was given: names are '
+                 'altered before the lookup (a name such as ".gitignore" or "./x" resolves to another paragraph)' % (altered[0],), where=f.where)
+    else:
+        rep.ok('C16.R4', f.site, 'the paragraphs are asked about the given name', '%d calls of matches() with the unchanged symbolic name' % len(asked))
     if bad:
         rep.fail('C16.R4', f.site, 'last match wins', bad, where=f.where)
     else:
